@@ -345,3 +345,4 @@ add('C13', 'keyerror-gives-tiny-probability', SPS, "        except KeyError:\n  
 add('C13', 'parse-trains-detector', SPS, "        omen_score = self.omen.parse(password)\n", "        omen_score = self.omen.parse(password)\n        self.multiword_detector.train(password)\n", 'fire', 'C13.R4')
 add('C13', 'parse-remembers-last', SPS, "        omen_score = self.omen.parse(password)\n", "        omen_score = self.omen.parse(password)\n        self.last_password = password\n", 'fire', 'C13.R4')
 add('C13', 'tables-swapped-at-load', SGIOF, [("_load_from_multiple_files(grammar.count_digits, config['BASE_D']", "_load_from_multiple_files(grammar.count_other, config['BASE_D']"), ("_load_from_multiple_files(grammar.count_other, config['BASE_O']", "_load_from_multiple_files(grammar.count_digits, config['BASE_O']")], None, 'fire', 'C13.R5')
+add('C08', 'no-save-on-exhaustion (pinned defect)', CSF, "                self._save_session()\n                return\n", "                return\n", 'fire', 'C08.R4')
